@@ -91,6 +91,8 @@ def forbidden_scan() -> list[str]:
     string literals stripped; Variable/Hypothesis outside a Section too)."""
     bad = []
     for f in sorted(COQ.rglob('*.v')):
+        if f.name.startswith('wip_'):
+            continue
         src = strip_strings(strip_comments(f.read_text()))
         for pat in FORBIDDEN:
             for m in re.finditer(pat, src):
@@ -139,7 +141,7 @@ def coq_files() -> list[str]:
     fs = []
     for f in sorted(COQ.rglob('*.v')):
         rel = f.relative_to(COQ)
-        if rel.parts[0] in ('extract',):
+        if rel.parts[0] in ('extract',) or rel.name.startswith('wip_'):
             continue
         fs.append(str(rel))
     return fs
@@ -179,7 +181,7 @@ def make(targets: list[str] | None = None) -> tuple[int, str]:
         rc, out, err = sh('coq_makefile -f _CoqProject -o Makefile', cwd=COQ)
         if rc:
             return rc, out + err
-    cmd = ['make', '-k', '-j16'] + (targets or [])
+    cmd = ['make', '-k', '-j16', 'COQC=timeout 1200 coqc'] + (targets or [])
     rc, out, err = sh(cmd, cwd=COQ, timeout=3000)
     return rc, out + err
 
@@ -324,10 +326,13 @@ class Ctx:
 
     # -- known findings ----------------------------------------------------
     def _load_known(self):
+        ks = []
         f = ROOT / 'known_findings.json'
-        if not f.exists():
-            return []
-        return [k for k in json.loads(f.read_text()) if k.get('property') == self.prop]
+        if f.exists():
+            ks += json.loads(f.read_text())
+        for g in sorted((ROOT / 'known_findings.d').glob('*.json')) if (ROOT / 'known_findings.d').exists() else []:
+            ks += json.loads(g.read_text())
+        return [k for k in ks if k.get('property') == self.prop]
 
     def _match_known(self, sig: dict):
         for k in self.known:
